@@ -339,7 +339,11 @@ On request success, this will return a [`{response}`]."#,
     }];
 
     if operation.use_required_struct(Language::Rust) {
-        let lifetimes = if operation.parameters.iter().any(|param| param.ty.is_reference_type()) {
+        let lifetimes = if operation
+            .parameters
+            .iter()
+            .any(|param| !param.optional && param.ty.is_reference_type())
+        {
             vec!["'a".to_string()]
         } else {
             vec![]
